@@ -227,6 +227,14 @@ func RunRegistryHistory(id int, seed int64) *RHistory {
 	}
 	G := 2 + rng.Intn(3)
 	slow := id%4 == 2
+	if id%4 == 3 {
+		// prelude: two pipelines that share their formatter and sink, so that calls meet nodes used twice
+		for _, n := range []string{"a", "m", "s", "g"} {
+			r.regnode(n, "default", mk(n, rng, false))
+		}
+		r.regpipe("p", []string{"a", "m", "s"}, "default")
+		r.regpipe("q", []string{"g", "m", "s"}, "default")
+	}
 	var wg sync.WaitGroup
 	for g := 0; g < G; g++ {
 		wg.Add(1)
